@@ -67,7 +67,7 @@ def run(chk):
     quick = chk.tier == "quick"
     chk.rule = ("A: all 1..N-word descriptions over the vocabulary (non-trivial: rejected inputs and every third accepted one); "
                 "B: seeded grammar/mutation/near-miss/Unicode descriptions, every call validated")
-    chk.assumptions = ["keywords fold ASCII case only; U+212A and U+0130 (which Unicode-lowercase to ASCII) are outside the domain",
+    chk.assumptions = ["keywords fold ASCII case only; U+212A (KELVIN SIGN, which Unicode-lowercases to ASCII k) is outside the domain",
                        "#rgb denotes the per-digit values (the crate's pinned tests)", "leading zeros in numbers are accepted (git uses strtol)"]
     wd = vlib.workdir("c11-rt")
     cfg = mk_cfg("spec/mc/MC_GitStyle.cfg", os.path.join(wd, "rt.cfg"), {"Mode": '"roundtrip"'})
